@@ -25,6 +25,7 @@ import (
 	thtml "go.pennock.tech/tabular/html"
 	tjson "go.pennock.tech/tabular/json"
 	"go.pennock.tech/tabular/markdown"
+	"go.pennock.tech/tabular/properties/align"
 	"go.pennock.tech/tabular/texttable"
 	"go.pennock.tech/tabular/texttable/decoration"
 	"go.pennock.tech/tabular/zverif/vrt"
@@ -540,8 +541,23 @@ func (cb *c16CB) UpdateProperties(po tabular.PropertyOwner) error {
 	vrt.Point("callback", cb.id)
 	if c, ok := po.(*tabular.Cell); ok {
 		*cb.log = append(*cb.log, c.String())
+		// every thread stamps the cells of its own table
+		c.SetProperty(c16StampKey, cb.id)
 	}
 	return nil
+}
+
+type c16Key string
+
+const c16StampKey = c16Key("stamp")
+
+// c16Template is a cell VALUE shared by all threads: each copies it into its own table.  It carries a
+// property, so the copies start out sharing whatever the property storage shares between cell copies.
+func c16Template() tabular.Cell {
+	c := tabular.NewCell("tmpl")
+	c.SetProperty(c16StampKey, "template")
+	c.SetProperty(c16Key("other"), "kept")
+	return c
 }
 
 type c16Format struct {
@@ -574,14 +590,18 @@ func c16Formats() []c16Format {
 }
 
 // c16Body: build an own table, register a recording callback, render twice to an own writer.
-func c16Body(f c16Format, id int, out *[]string, yield func(string)) {
+func c16Body(f c16Format, id int, tmpl *tabular.Cell, out *[]string, yield func(string)) {
 	tag := fmt.Sprintf("T%d", id)
 	yield("New")
 	t := f.mk()
 	yield("AddHeaders")
 	t.AddHeaders("k1", "k2")
-	yield("AddRowItems")
-	t.AddRowItems(tag+"a-é", 10*id)
+	if id%2 == 0 {
+		// every other thread right-aligns its second column and centres column-0 defaults
+		t.Column(2).SetProperty(align.PropertyType, align.Right)
+	}
+	yield("AddRow(template copy)")
+	t.AddRow(tabular.NewRow().Add(*tmpl).Add(tabular.NewCell(10 * id)))
 	yield("AddRowItems")
 	t.AddRowItems(tag+"b\nｗｗ line2 "+strings.Repeat(tag, 20), strings.Repeat("\""+tag, 25)) // multi-line, wide, 60- and 75-byte fields
 	var cblog []string
@@ -595,7 +615,14 @@ func c16Body(f c16Format, id int, out *[]string, yield func(string)) {
 		err := f.to(t, w)
 		*out = append(*out, fmt.Sprintf("render %d: err=%v\n%s", r+1, err, w.buf.String()))
 	}
+	var stamps []string
+	for _, r := range t.AllRows() {
+		for i := range r.Cells() {
+			stamps = append(stamps, fmt.Sprint(r.Cells()[i].GetProperty(c16StampKey), "/", r.Cells()[i].GetProperty(c16Key("other"))))
+		}
+	}
 	*out = append(*out, fmt.Sprintf("callback log: %q errors: %v", cblog, t.Errors()))
+	*out = append(*out, fmt.Sprintf("stamps on own cells: %v; template still: %v/%v", stamps, tmpl.GetProperty(c16StampKey), tmpl.GetProperty(c16Key("other"))))
 }
 
 func c16RegistryBody(serial string, out *[]string, yield func(string)) {
@@ -628,21 +655,25 @@ func runC16(x *X) {
 		desc := "cold: " + formats[fi[0]].name + " || " + formats[fi[1]].name
 		c.Logf("program %s", desc)
 		outs := make([][]string, 2)
+		tmpl := c16Template()
 		bodies := []func(){
-			func() { c16Body(formats[fi[0]], 0, &outs[0], vrt.Yield) },
-			func() { c16Body(formats[fi[1]], 1, &outs[1], vrt.Yield) },
+			func() { c16Body(formats[fi[0]], 0, &tmpl, &outs[0], vrt.Yield) },
+			func() { c16Body(formats[fi[1]], 1, &tmpl, &outs[1], vrt.Yield) },
 		}
 		res := schedule(c, bodies, 0)
 		coldOuts = outs
 		schCommon(x, c, "C16", res, []string{"family:cold-start", "first_use_in_process"}, desc)
 		x.Nontrivial(desc)
 	})
-	// outputs of each body when run alone (sequentially, unmanaged)
+	// outputs of each body when run alone: one managed thread, so that the run starts from the same clean
+	// state (empty pools) as every explored execution
 	alone := map[string][]string{}
 	for i, f := range formats {
 		for id := 0; id < 3; id++ {
 			var out []string
-			c16Body(f, id, &out, func(string) {})
+			tmpl := c16Template()
+			f, id := f, id
+			vrt.Run([]func(){func() { c16Body(f, id, &tmpl, &out, func(string) {}) }}, func(vrt.PointInfo) int { return 0 }, false, 200000)
 			alone[fmt.Sprint(i, id)] = out
 		}
 	}
@@ -671,9 +702,10 @@ func runC16(x *X) {
 			c.Logf("program %s", desc)
 			outs := make([][]string, nthreads+1)
 			var bodies []func()
+			tmpl := c16Template()
 			for t := 0; t < nthreads; t++ {
 				t := t
-				bodies = append(bodies, func() { c16Body(formats[fi[t]], t, &outs[t], vrt.Yield) })
+				bodies = append(bodies, func() { c16Body(formats[fi[t]], t, &tmpl, &outs[t], vrt.Yield) })
 			}
 			serial := nextSerial(x)
 			defer resetNames("c16-" + serial)
@@ -788,25 +820,30 @@ func racePass(args []string) {
 	// cold iteration first: nothing has touched the library yet in this process
 	{
 		var wg sync.WaitGroup
+		tmpl := c16Template()
 		for g := 0; g < 16; g++ {
 			wg.Add(1)
 			g := g
 			go func() {
 				defer wg.Done()
 				var out []string
-				c16Body(formats[g%len(formats)], 0, &out, func(string) {})
+				c16Body(formats[g%len(formats)], g%2, &tmpl, &out, func(string) {})
 			}()
 			runs++
 		}
 		wg.Wait()
 	}
 	for i, f := range formats {
-		var out []string
-		c16Body(f, 0, &out, func(string) {})
-		alone[fmt.Sprint(i)] = out
+		for id := 0; id < 2; id++ {
+			var out []string
+			tmpl := c16Template()
+			c16Body(f, id, &tmpl, &out, func(string) {})
+			alone[fmt.Sprint(i, id)] = out
+		}
 	}
 	for it := 0; it < *iters; it++ {
 		var wg sync.WaitGroup
+		tmpl := c16Template()
 		for g := 0; g < 16; g++ {
 			wg.Add(1)
 			g := g
@@ -824,11 +861,12 @@ func racePass(args []string) {
 					return
 				}
 				fi := (g + it) % len(formats)
+				id := (g / 4) % 2
 				var out []string
-				c16Body(formats[fi], 0, &out, func(string) {})
-				if strings.Join(out, "\x00") != strings.Join(alone[fmt.Sprint(fi)], "\x00") {
+				c16Body(formats[fi], id, &tmpl, &out, func(string) {})
+				if strings.Join(out, "\x00") != strings.Join(alone[fmt.Sprint(fi, id)], "\x00") {
 					atomic.AddInt64(&bad, 1)
-					fmt.Fprintf(os.Stderr, "MISMATCH format %s:\n%s\n--- alone:\n%s\n", formats[fi].name, strings.Join(out, "\n"), strings.Join(alone[fmt.Sprint(fi)], "\n"))
+					fmt.Fprintf(os.Stderr, "MISMATCH format %s:\n%s\n--- alone:\n%s\n", formats[fi].name, strings.Join(out, "\n"), strings.Join(alone[fmt.Sprint(fi, id)], "\n"))
 				}
 			}()
 			runs++
